@@ -284,7 +284,15 @@ type FuncV struct {
 
 type TupleV struct{ Vs []Val }
 
+// MapIterV: iterator over a tracked map (ssa.Range / ssa.Next).
+type MapIterV struct {
+	Keys []int64
+	Vals []Val
+	Pos  int
+}
+
 type MapV struct {
+	Dyn   bool // made by the analysed code and tracked in the heap (Exec.MapModel); the heap object is the truth
 	Const bool
 	Keys  []int64
 	Vals  []Val
@@ -375,6 +383,10 @@ type TopV struct{ T types.Type }
 
 type BufV struct { // bytes.Buffer model
 	Data *ArrayV
+	// Handed: the arrays given out by Bytes(). In the real type they alias the buffer's storage (a Reset followed by
+	// writes overwrites them); here they are snapshots, but they count as reachable from the buffer, so that "who still
+	// holds a reference to this message" sees the buffer and whoever owns it.
+	Handed []int
 }
 
 type RdrV struct { // bytes.Reader model
